@@ -84,6 +84,9 @@ namespace vu
    struct Errors { template< typename R > static constexpr const char* message = errmsg< R >; };
    template< typename R > using mif = must_if< Errors, normal, true >::control< R >;
    template< typename R > using mif_nr = must_if< Errors, normal, false >::control< R >;
+   // an Errors class that asks for a raise without providing a message (the rule's own error_message is used)
+   struct Errors2 { template< typename R > static constexpr const char* message = nullptr; template< typename R > static constexpr bool raise_on_failure = std::is_same_v< R, P1m >; };
+   template< typename R > using mif2 = must_if< Errors2, normal, false >::control< R >;
 
    template< template< typename... > class C, typename I, typename... S >
    void use_hooks( I& in, const I& cin, S&... st )
@@ -148,6 +151,9 @@ namespace vu
       mif< P1 >::failure( cin, st );
       mif< P2 >::failure( cin, st );
       mif_nr< P1 >::failure( cin, st );
+      mif2< P1m >::failure( cin, st );
+      mif2< P2 >::failure( cin, st );
+      mif2< P1m >::raise( cin, st );
       mif< P1 >::raise( cin, st );
       r = use4< P1, act, mif >( in ) && r;
       normal< P1 >::raise( cin, st );
